@@ -138,7 +138,7 @@ Add Ring FrRingRC2 : fr_ring_theory.
 
 (* C09 completeness, every width: the assignment the gadget computes *)
 Theorem range_complete w nb base asg v :
-  (0 <= v < 2 ^ Z.of_nat nb)%Z -> (nb <= 254)%nat ->
+  (0 <= v < 2 ^ Z.of_nat nb)%Z ->
   asg W_ZERO = 0 -> asg w = F v ->
   (if Nat.even nb then
      forall j, (j < range_count nb)%nat -> asg (base + j)%nat = F (acc_Z v (range_count nb) j)
@@ -150,7 +150,7 @@ Theorem range_complete w nb base asg v :
      asg (S (S base + range_count top)) = F v) ->
   block_sat (range_blk w nb base) asg.
 Proof.
-  intros Hv Hle Hz Hw H. unfold range_blk. destruct (Nat.even nb) eqn:He.
+  intros Hv Hz Hw H. unfold range_blk. destruct (Nat.even nb) eqn:He.
   - destruct nb as [|nb'].
     + (* width 0 *)
       unfold range_even_blk. apply (block_sat_arith asg [set_a w (set_left 1 c_new)]).
@@ -184,3 +184,19 @@ Proof.
       * apply assert_equal_iff. rewrite Hrec, Hw. reflexivity.
 Qed.
 End RangeCompleteAny.
+
+(* the honest-accumulator hypothesis of [range_complete], named *)
+Definition range_honest (asg : assignment) (nb base : nat) (v : Z) : Prop :=
+  if Nat.even nb then
+    forall j, (j < range_count nb)%nat -> asg (base + j)%nat = F (acc_Z v (range_count nb) j)
+  else
+    let top := (nb - 1)%nat in let lo := (v mod 2 ^ Z.of_nat top)%Z in
+    asg base = F lo /\
+    (forall j, (j < range_count top)%nat -> asg (S base + j)%nat = F (acc_Z lo (range_count top) j)) /\
+    asg (S base + range_count top)%nat = F (v / 2 ^ Z.of_nat top) /\
+    asg (S (S base + range_count top)) = F v.
+
+Lemma range_complete_h {PR : PrimeR} w nb base asg v :
+  (0 <= v < 2 ^ Z.of_nat nb)%Z -> asg W_ZERO = 0 -> asg w = F v -> range_honest asg nb base v ->
+  block_sat (range_blk w nb base) asg.
+Proof. intros Hv Hz Hw H. exact (range_complete w nb base asg v Hv Hz Hw H). Qed.
